@@ -33,7 +33,7 @@ NoLimit == -1
 
 MonInit(maxIn, maxOut) ==
   [att |-> <<>>, acc |-> {}, cand |-> <<>>, annc |-> {}, pin |-> {}, stim |-> [a |-> "none"],
-   newAtt |-> FALSE, accepted |-> FALSE, maxIn |-> maxIn, maxOut |-> maxOut, bad |-> "", taint |-> {}]
+   newAtt |-> FALSE, accepted |-> FALSE, protoFail |-> FALSE, maxIn |-> maxIn, maxOut |-> maxOut, bad |-> "", taint |-> {}]
 
 Fail(M, why) == IF M.bad = "" THEN [M EXCEPT !.bad = why] ELSE M
 \* Trace validation keeps going after a broken rule: the rule is reported, `bad` is cleared and the
@@ -48,7 +48,7 @@ Below(n, max) == max = NoLimit \/ n < max
 
 \* a new stimulus (environment or API input)
 MonStim(M, s) ==
-  LET M1 == [M EXCEPT !.stim = s, !.newAtt = FALSE, !.accepted = FALSE] IN
+  LET M1 == [M EXCEPT !.stim = s, !.newAtt = FALSE, !.accepted = FALSE, !.protoFail = FALSE] IN
   CASE s.a \in {"established", "in_est"} ->
          [M1 EXCEPT !.cand = (s.c :> [peer |-> s.p, dir |-> s.dir]) @@ @]
     [] s.a = "inbound" -> [M1 EXCEPT !.pin = @ \cup {s.c}]
@@ -119,6 +119,9 @@ MonEvent(M, e) ==
          ELSE IF e.k = "dial_failure" /\ Len(e.addrs) # 1 THEN Fail(M, "failure names no address")
          ELSE [M EXCEPT !.att[e.cid].st = "failed"]
     [] e.k = "closed" -> M
+    \* the requesting protocol was told that the dial it asked for failed
+    [] e.k = "proto_dial_failure" ->
+         IF "p" \in DOMAIN M.stim /\ e.peer = M.stim.p THEN [M EXCEPT !.protoFail = TRUE] ELSE M
     [] OTHER -> M
 
 \* end of the handling of one stimulus: `ret` is the API result ("ok", "err", "none"),
@@ -128,6 +131,8 @@ MonEnd(M, ret, panic) ==
   IF panic THEN Fail(M, "panic")
   ELSE IF s.a \in {"dial", "dial_addr", "hdial", "hdial_addr"} /\ ~Tainted(M, s.p) /\ ret = "ok" /\ OpenAtt(M, s.p) = {}
           /\ ~(\E c \in DOMAIN M.cand : M.cand[c].peer = s.p) /\ AccPeer(M, s.p) = {}
+          \* a protocol-initiated request may also be answered at once by a dial failure
+          /\ ~(s.a \in {"hdial", "hdial_addr"} /\ M.protoFail)
     THEN Fail(M, "dial accepted but nothing is being attempted")
   \* wedge probe: issued only at quiescence for a peer without a connection, after a fresh
   \* address was added; it must really start an attempt unless the outgoing limit is reached
